@@ -1,7 +1,7 @@
 #!/bin/bash
 # usage: tools/try_seed.sh <seed-id> <check-id> [extra args]  -- apply a seeded change to /repo, run a check, undo, record the result
 SEED=$1; CHECK=$2; shift; shift
-cd /repo && git apply /verif/seeded/$SEED/patch.diff || { echo "patch failed"; exit 2; }
+cd /repo && { git diff --quiet || { echo "REFUSING: /repo has uncommitted changes"; exit 3; }; } && git apply /verif/seeded/$SEED/patch.diff || { echo "patch failed"; exit 2; }
 cd /verif && /venv/bin/python -m pbmon.check $CHECK "$@" > /tmp/try_seed.$SEED.$CHECK.txt 2>&1
 RC=$?
 git -C /repo checkout -- . ; rm -f /repo/resulttable
